@@ -65,6 +65,12 @@ CHECKS["C18"] = dict(
    text="Every history of length <= 5/4 (quick) or 6/5 (thorough) over 14 symbols (new frame, same timestamp, losses, duplicate, late packets, +300 / +32767 jumps, arrival clock jumping back, timestamp jump, burst, report timer, second SSRC), from start sequence/timestamp at 0 and just before the 16/32-bit wrap, is replayed on a fresh real RTCRtpReceiver whose own _run_rtcp task emits the receiver report through a transport stand-in; every report block and getStats() is compared with a reference model written from RFC 3550 A.1/A.3/A.8, and the RTCP task must survive (every value fits its field). The same tree one level deeper (6/7) on the bare StreamStatistics object.",
    note="Decoder thread and RTCP interval randomness replaced through module-attribute seams; jitter pairing follows the implementation (statement leaves it open).",
    design="2/C18")
+CHECKS["C15"] = dict(
+   level="model_checking",
+   technique="explicit-state exploration of the real RemoteBitrateEstimator as a complete depth-bounded tree of arrival phases (copy of the real object per node), oracle evaluated after every packet against a reference measurement",
+   text="Every sequence of up to 4 (quick) / 5 (thorough) phases over 14 phase shapes (steady, bursts, growing and shrinking send-time lag, slow, zero-size payloads, idle periods longer than the window, a second SSRC; 50 packets each), one level deeper over the 8 shapes involving zero sizes/congestion/idling, from two send-clock origins (one placing the 24-bit abs-send-time wrap inside the run), is fed to the real estimator; after every packet: no exception, measurement equals the reference over exactly the last 1000 ms, estimate is an encodable non-negative int with the exact SSRC list, never rises above 1.5 x measurement + 10 kbit/s, and is <= 85 % of it on detected over-use.",
+   note="Floating-point state: no deduplication (complete tree). Over-use premise read from the real detector. Two averaging-interval conventions accepted for the measurement (statement fixes the packets, not the divisor).",
+   design="2/C15")
 NOT_YET = {}
 
 def main():
